@@ -13,23 +13,30 @@ LEVEL_TEXT = ("Bounded contract on the real lazy pipeline: for generated DAGs (d
               "evaluate(); evaluate() equals the reference (= eager) value; every needed function is invoked exactly once "
               "however many consumers share it and however often evaluate() is called; the recorded task graph is "
               "acyclic and (contracting output-picker tasks) has an edge for exactly each producer->consumer dependency "
-              "of the evaluation. _LazyFunction lives on __slots__ objects, global task-graph state and networkx: "
-              "no obligation is counted as proved ('exploration').")
+              "of the evaluation. Proved part (pyvc): _LazyFunction.evaluate - an evaluated node returns its stored "
+              "value without calling its function, a fresh node calls it exactly once on the evaluated arguments and "
+              "stores the value (ghost call counter; the stored callable and evaluate_lazy are assumed contracts). The "
+              "pipeline-level statement (sharing across consumers, task graph) lives on global task-graph state and "
+              "networkx and is decided on the bounded rung only, hence 'exploration'.")
 LEVEL_NOTE = "Bounds: DAGs of 1..4 functions over roots {x,y,z}. Trusted: reference evaluator rtc/dag.py; networkx."
-TECHNIQUE = "bounded contract checking of lazy evaluation against the reference evaluator (no deductive part)"
+TECHNIQUE = ("contract on _LazyFunction.evaluate discharged by z3 (ghost call counter); pipeline-level lazy evaluation by "
+             "bounded contract checking against the reference evaluator")
 EXPLANATION = LEVEL_TEXT
 RULE = ("random DAG x every output x {plain, construct_dag}; distinct = distinct (DAG, output, mode); non-trivial = the "
         "evaluation needs >=2 functions")
-TRUSTED_BASE = ["reference evaluator rtc/dag.py", "networkx"]
+TRUSTED_BASE = ["reference evaluator rtc/dag.py", "networkx", "assumed contracts: evaluate_lazy, the stored callable"]
 ASSUMPTIONS = ["user functions deterministic"]
 
 
 def registry():
-    return {}
+    from contracts import lazy
+    return {**{c.short: c for c in lazy.ALL}, **{c.name: c for c in lazy.ALL}}
 
 
 def proof_items():
-    return []
+    from contracts import lazy
+    from vf.driver import ProofItem
+    return [ProofItem(lazy.evaluate, gen=lazy.gen)]
 
 
 def _cases(tier, rng):
